@@ -508,3 +508,139 @@ _run_c19_prev10 = run
 def run(res, facts, tier):
     _run_c19_prev10(res, facts, tier)
     r10_construct_to_owner(res, facts)
+
+
+# ----------------------------------------------------------------------------------------------- R11: an owned pointer member is not overwritten while it still owns something
+_RELEASERS = re.compile(r'^(destroyTranscoder|XalanDestroy|destroy|deallocate|deleteObject|returnObject|returnXPath|returnFormatterToText|returnNodeSorter)$')
+
+
+def r11_overwrite(res, facts):
+    """A raw pointer member that the destructor of its class releases owns what it points to.  Assigning it in any other member function drops the old object unless, on every
+    path to the assignment, the old object was released (the same releasing call, with the member as argument, or delete), the member is known to be null, or the function hands
+    the old value to its caller (release())."""
+    r = res.rule('C19-R11', 'owned pointer members (released by the destructor of their class): every assignment in another member function is reached only after the old object was '
+                 'released, on paths where the member is null, or in a function that returns the old value', floor=5)
+    bycls = collections.defaultdict(list)
+    for k in facts.astidx:
+        fn = facts.F.get(k)
+        if not fn or not fn.get('cls') or '<' in fn['cls']:
+            continue
+        a = facts.ast(k)
+        if a is None or a.get('body') is None or not facts.lib_path(a['file']):
+            continue
+        bycls[fn['cls']].append((k, fn, a))
+
+    def this_member(e):
+        e = strip_casts(e)
+        if e is not None and e.get('k') == 'Member' and (strip_casts(e.get('obj')) or {'k': 'This'}).get('k') == 'This':
+            return e['m']
+        return None
+
+    def releases(node_ast, fld=None):
+        out = set()
+        for x in walk(node_ast):
+            if x.get('k') == 'Delete':
+                m2 = this_member(x.get('e'))
+                if m2:
+                    out.add(m2)
+            if x.get('k') in ('Call', 'MCall'):
+                n = x.get('n') or callee(x).split('::')[-1]
+                if _RELEASERS.match(n or ''):
+                    for arg in x.get('args', []):
+                        for y in walk(arg):
+                            m2 = this_member(y) if y.get('k') == 'Member' else None
+                            if m2:
+                                out.add(m2)
+        return out
+    n_owned = 0
+    for cls, lst in sorted(bycls.items()):
+        ptrf = {fl['n'] for fl in (facts.K.get(cls) or {}).get('fields', []) if re.search(r'\*\s*(const)?\s*$', fl.get('ty') or '')}
+        if not ptrf:
+            continue
+        owned = set()
+        for k, fn, a in lst:
+            if fn.get('kind') == 'dtor':
+                owned |= releases(a['body']) & ptrf
+        if not owned:
+            continue
+        n_owned += len(owned)
+        for k, fn, a in lst:
+            if fn.get('kind') in ('ctor', 'dtor'):
+                continue
+            asg = [x for x in walk(a['body']) if x.get('k') == 'Bin' and x.get('op') == '=' and this_member(x['lhs']) in owned]
+            if not asg:
+                continue
+            cfg = CFG(a)
+            # the function hands the old value over: it returns a local that was initialised from the member (or the member itself)
+            hands_over = set()
+            for x in walk(a['body']):
+                if x.get('k') == 'Return' and x.get('e') is not None:
+                    e = strip_casts(x['e'])
+                    if this_member(e):
+                        hands_over.add(this_member(e))
+                    if e is not None and e.get('k') == 'Ref':
+                        for y in walk(a['body']):
+                            if y.get('k') == 'Decl':
+                                for v in y.get('vars', []):
+                                    if v['id'] == e.get('id') and v.get('init') is not None and this_member(v['init']):
+                                        hands_over.add(this_member(v['init']))
+            for x in asg:
+                fld = this_member(x['lhs'])
+                site = '%s: %s = %s' % (short(facts.name[k]), fld, pp(strip_casts(x['rhs']))[:40])
+                if fld in hands_over:
+                    r.ok(site, 'the old value is returned to the caller')
+                    continue
+                if short(facts.name[k]).split('::')[-1] == 'release' and ((strip_casts(x['rhs']) or {}).get('cv') == 0 or (strip_casts(x['rhs']) or {}).get('k') == 'Nullptr'):
+                    r.ok(site, 'release(): the guard is disarmed, the caller keeps the pointer it obtained through get()')
+                    continue
+                target = next((nd for nd in cfg.nodes if nd.ast is not None and any(y is x for y in walk(nd.ast))), None)
+                if target is None:
+                    res.broken.append('C19-R11: cannot place %s in the control flow' % site); r.instances += 1; continue
+                # search for a path entry -> target on which the member is neither released nor known to be null
+                seen = set()
+                todo = [cfg.entry]
+                leak = False
+                while todo:
+                    nd = todo.pop()
+                    if nd.id in seen:
+                        continue
+                    seen.add(nd.id)
+                    if nd is target:
+                        leak = True
+                        break
+                    if nd.ast is not None and fld in releases(nd.ast):
+                        continue                    # released here: beyond this point the member owns nothing
+                    if nd.ast is not None and nd.kind == 'stmt' and any(y.get('k') == 'Bin' and y.get('op') == '=' and this_member(y['lhs']) == fld and
+                                                                        ((strip_casts(y['rhs']) or {}).get('cv') == 0 or (strip_casts(y['rhs']) or {}).get('k') == 'Nullptr') for y in walk(nd.ast)) and nd is not target:
+                        pass
+                    if nd.kind == 'cond' and nd.ast is not None:
+                        core, eff = common.norm_atom(nd.ast, True)
+                        null_branch = None
+                        if core is not None and core.get('k') == 'Bin' and core['op'] in ('==', '!='):
+                            for u, v in ((core['lhs'], core['rhs']), (core['rhs'], core['lhs'])):
+                                if this_member(u) == fld and ((strip_casts(v) or {}).get('cv') == 0 or (strip_casts(v) or {}).get('k') == 'Nullptr'):
+                                    null_branch = (core['op'] == '==') == eff          # truth value of the atom on which the member is null
+                        elif core is not None and this_member(core) == fld:
+                            null_branch = not eff
+                        if null_branch is not None:
+                            nxt = nd.cond_false if null_branch else nd.cond_true    # follow only the branch on which the member is NOT null
+                            if nxt is not None:
+                                todo.append(nxt)
+                            continue
+                    todo.extend(nd.succ)
+                if leak:
+                    r.violation(site, 'the member still owns an object on a path to this assignment (no release of %s and no test that it is null on that path): the old object is never '
+                                'returned to its memory manager' % fld, common.file_line(a, x))
+                else:
+                    r.ok(site, 'released or null on every path')
+    if n_owned < 8:
+        raise AnalysisBroken('only %d owned pointer members found (floor 8)' % n_owned)
+    return r
+
+
+_run_c19_prev11 = run
+
+
+def run(res, facts, tier):
+    _run_c19_prev11(res, facts, tier)
+    r11_overwrite(res, facts)
